@@ -51,10 +51,19 @@ type Scenario struct {
 	NoAnnounce bool       `json:"noAnnounce"`
 	Announce   string     `json:"announce"` // header | outline | both (default both)
 	NoRetry    bool       `json:"noRetry"`
+	Grow       *GrowSpec  `json:"grow"` // second phase: once every link is synced a node mines and relays new blocks
 	ShorterWinner bool    `json:"shorterWinner"` // premise of the scenario: the heaviest tip is NOT the longest
 	HardTarget bool       `json:"hardTarget"` // InitialTarget {0x00,0x10}: work per block diverges from 1, heaviest != longest
 	V1Window   string     `json:"v1Window"` // which heights in [allow, require) are v1 blocks (World.V1Window)
 	Probe      string     `json:"probe"` // directed reproduction, see probeOutlineSidechain
+}
+
+// GrowSpec: after the network has settled on its initial (possibly equal-height, undecided) tips,
+// node Node mines N more blocks on its own tip and announces them with the given relay kind.
+type GrowSpec struct {
+	Node  int    `json:"node"`
+	N     int    `json:"n"`
+	Relay string `json:"relay"` // outline | header | both
 }
 
 // Outcome of one scenario run.
@@ -162,7 +171,9 @@ func RunConverge(sc Scenario, slot int) (out *Outcome) {
 	resolve()
 	// the winner must be sufficiently heavier (core's reorg criterion) than every other tip
 	heaviest := ""
-	if sc.Winner != "" {
+	if sc.Grow != nil {
+		// decided in the second phase
+	} else if sc.Winner != "" {
 		for iter := 0; ; iter++ {
 			resolve()
 			wt := w.Name(mgr[sc.Winner].Tip().ID)
@@ -294,6 +305,76 @@ func RunConverge(sc Scenario, slot int) (out *Outcome) {
 		if sc.GapMs > 0 {
 			time.Sleep(time.Duration(sc.GapMs) * time.Millisecond)
 		}
+	}
+
+	if sc.Grow != nil {
+		// phase 1: every link up and every peer marked synced (the nodes have exchanged their forks
+		// and, none being sufficiently heavier, stay where they are), tips re-announced meanwhile
+		deg := make([]int, len(nodes))
+		for _, e := range sc.Edges {
+			deg[e[0]]++
+			deg[e[1]]++
+		}
+		settleEnd := time.Now().Add(time.Duration(sc.DeadlineMs/3) * time.Millisecond)
+		lastA := time.Time{}
+		for time.Now().Before(settleEnd) {
+			ok := true
+			for i, n := range nodes {
+				ps := n.S.Peers()
+				if len(ps) != deg[i] {
+					ok = false
+				}
+				for _, p := range ps {
+					ok = ok && p.Synced()
+				}
+			}
+			if ok {
+				break
+			}
+			if time.Since(lastA) > 300*time.Millisecond {
+				lastA = time.Now()
+				for _, n := range nodes {
+					go n.Announce(sc.Grow.Relay)
+				}
+			}
+			time.Sleep(25 * time.Millisecond)
+		}
+		time.Sleep(300 * time.Millisecond)
+		for i, n := range nodes {
+			if got := w.Name(n.CM.Tip().ID); got != tips[i] {
+				lg.add("phase 1: %s moved from %s to %s", sc.Nodes[i].Name, tips[i], got)
+			}
+			lg.add("phase 1 peers of %s: %s", sc.Nodes[i].Name, peerSummary(n))
+		}
+		// phase 2: the node mines on its tip and relays
+		g := nodes[sc.Grow.Node]
+		for k := 0; k < max(1, sc.Grow.N); k++ {
+			cs := g.CM.TipState()
+			pname := w.Name(cs.Index.ID)
+			b := mineOnV(cs, w.minerAddr("grow"), []byte(fmt.Sprintf("grow-%d-%s", k, w.Seed)), cs.PrevTimestamps[0].Add(time.Second), false)
+			oracle := w.ManagerAt(pname)
+			if err := oracle.AddBlocks([]types.Block{b}); err != nil || oracle.Tip().ID != b.ID() {
+				fail("infra:grow", "mined block rejected by the oracle: %v", err)
+				return
+			}
+			name := fmt.Sprintf("m%d", cs.Index.Height+1)
+			w.register(name, b, cs.Index.Height+1, "ok", oracle.TipState())
+			if err := g.RCM.AddBlocks([]types.Block{b}); err != nil {
+				fail("infra:grow", "node rejected its own block: %v", err)
+				return
+			}
+			heaviest = name
+			lg.add("%s mined %s on %s", sc.Nodes[sc.Grow.Node].Name, name, pname)
+			g.Announce(sc.Grow.Relay)
+		}
+		for i, n := range nodes {
+			if t := w.Name(n.CM.Tip().ID); i != sc.Grow.Node && t != heaviest && !w.SufficientlyHeavier(heaviest, t) {
+				fail("infra:grow", "the mined tip %s is not sufficiently heavier than %s", heaviest, t)
+				return
+			}
+		}
+		out.Heaviest = heaviest
+		sc.Announce = sc.Grow.Relay
 	}
 
 	// wait for convergence, re-announcing tips periodically
